@@ -19,6 +19,7 @@ def showRouted : Routed → String
 def step (_ : Unit) (t : List String) : Unit × String :=
   match t with
   | ["hash", ra, h, n] => ((), toString (hashChoice (ra = "1") (int! h) (int! n)))
+  | ["hk", ra, key, n] => ((), toString (hashKeyChoice (ra = "1") (hexBytes key) (int! n)))
   | ["rr", ns] => ((), showIntList (rrRun 0 (intList ns)))
   | ["pm", rc, all, wr, ch] =>
       ((), showRouted (partitionMessage (rc = "1") (exceptList all) (exceptList wr) (fun _ => exceptInt ch)))
